@@ -140,3 +140,14 @@ package keeper
 //@   flag noframe
 //@   flag pure=AccAddressFromBech32,FormatUint
 //@   before[C20.stci.key] prefix.Store).Set requires arg1 == join(operatorAddress, res_String_0, res_FormatUint_0) && arg2 == res_AccAddressFromBech32_0
+
+// C20 (task results are accepted only from operators with a registered BLS key): a BLS key is recorded only together
+// with a registration signature that VERIFIES under that key (a signature that decodes but does not verify is refused
+// like one that does not decode), for the operator and key of the request, and never over an existing key.
+//@ func (Keeper).RegisterBLSPublicKey
+//@   requires params != nil
+//@   flag noframe
+//@   flag pure=PublicKeyFromBytes,VerifySignature,IsExistPubKey,Wrap,Sprintf
+//@   flag havoc=SetOperatorPubKey
+//@   before[C20.rbpk.verified] SetOperatorPubKey requires res_VerifySignature_0 && res_VerifySignature_1 == nil && !res_IsExistPubKey_0 &&
+//@        arg_pub.Operator == params.Operator && arg_pub.PubKey == params.PubKey
